@@ -2,6 +2,7 @@ import ZipVerif.Tie.WriterSM
 import ZipVerif.Tie.RawCopy
 import ZipVerif.Tie.AlignedDev
 import ZipVerif.Tie.WriteAcc
+import ZipVerif.Tie.RawCopyAcc
 import ZipVerif.Props.C12
 /-
 COMPOSITION of the step-wise writer ties (`Tie/WriterSM.lean`) with the writer invariant
@@ -70,9 +71,11 @@ one-call tie iterated; `writeData_acc_M`), with ONE exception that is a per-step
 (`NoRefusal` in `ArgFits`): an entry that crosses 4 GiB without `large_file` WHILE an encoder is in front of the
 sink - both sides refuse, but the source after the chunk that crossed the limit, the model after the whole buffer
 (different byte counter / CRC register in the closed writer: `Lemmas/ShortWrite.Refusal`).  `add_symlink` and
-`start_file_aligned` write through a storer / into the extra field, where the accept function is not consulted
-(`sim_add_symlink_acc`, `AlignedDev.sim_wr`); `raw_copy_file_rename` does so too, but its tie (`Tie/RawCopy.lean`)
-still takes the whole-accept hypothesis, which is therefore the side condition `DevFits` of `.rawCopy`;
+`start_file_aligned` and `raw_copy_file_rename` write through a storer / into the extra field, where the accept
+function is not consulted (`sim_add_symlink_acc`, `AlignedDev.sim_wr`, `Tie/RawCopyAcc.sim_raw_copy_one_acc`).
+Raw copies of SEVERAL chunks: `Tie/RawCopyAcc.raw_copy_any_chunking` - on a fault-free sink the translated method
+has the outcome, final state, sink bytes and position of `Call.rawCopy` of the whole stream for ANY chunking; the
+two devices differ in the I/O call counter, so it is a one-call statement, not a covered call of `grun_sim`;
 `dropFields`: what dropping the fields of a `ZipWriter` does after `Drop::drop` returned (flate2 / bzip2
 encoders finish into the sink from their destructors) is the model's `dropInner` - external code;
 `fresh` is the struct literal of `ZipWriter::new` written by hand (`new` is not translated).
@@ -198,7 +201,6 @@ for the other calls -/
 def DevFits (ext : Rs.S.Ext) (g : Gen.ZipWriter) (c : GCall) (fa : Option Nat) (d : Dev) : Prop :=
   match c with
   | .startFileAligned n o _ => AlignedDev.PosBound ext.toWExt n (optOf o) (absW g) fa d
-  | .rawCopy _ _ _ _ => ∀ b, ext.accept b = b.length
   | _ => True
 
 theorem sized_fresh : Sized fresh :=
@@ -356,7 +358,7 @@ theorem step_sim (ext : Rs.S.Ext) (hacc : AccOk ext.accept) (c : GCall) (g : Gen
     exact (Sim.of_erase (by rw [this]; rfl)).mono fun _ _ => trivial
   | rawCopy now file n raw =>
     exact AlignedDev.SimAt.of_sim
-      (Sim.toStep _ _ (sim_raw_copy_one ext now g file n raw hs.last ha.1 htime hdev ha.2) (absR_ok _))
+      (Sim.toStep _ _ (sim_raw_copy_one_acc ext hacc now g hI file n raw hs.last ha.1 hadm ha.2) (absR_ok _))
   | startFileAligned n o a =>
     exact SimAt.toStep _ _ (AlignedDev.sim_start_file_aligned_at ext hacc g hI hs.last n ha o hadm.1 hadm.2 a fa d hdev)
       absRn_ok
